@@ -50,6 +50,12 @@ fn main() {
                 writeln!(out, "{}", gram::linecol(&line)).unwrap();
             }
         }
+        "render" => {
+            for line in stdin.lock().lines() {
+                let line = line.unwrap();
+                writeln!(out, "{}", gram::render(&line)).unwrap();
+            }
+        }
         "unicode-ranges" => {
             for line in stdin.lock().lines() {
                 let line = line.unwrap();
